@@ -570,6 +570,8 @@ class HostileGen:
                 env['cvar'] = 'cmsg'
             if self.on('ident_call_prefix'):
                 self.stmt([self.K('integer'), ' :: ', 'callcount = 0'], b)
+            if self.on('inline_kwargs'):
+                self.stmt([self.K('integer'), ' :: ', 'larr(3)'], b)
             # local objects of derived types
             for t in env.get('types', []):
                 if rng.random() < 0.6 and t['callable']:
@@ -635,6 +637,9 @@ class HostileGen:
             self.stmt(['i1', ' = ', '1'], b, joinable=True)
             self.stmt(['i2', ' = ', '2'], b, joinable=True)
             self.stmt(['jl', ' = ', '0'], b, joinable=True)
+            if self.on('inline_kwargs'):
+                self.feat('inline_kwargs')
+                self.stmt(['i2', ' = ', self.K('size'), '(larr, ', self.K('dim'), '=1)'], b, joinable=True)
             if env['cvar']:
                 if self.on('string_continuation') and rng.random() < 0.7:
                     self.feat('string_continuation')
@@ -751,6 +756,8 @@ class HostileGen:
 
         # ---- derived types
         ntypes = rng.choice([0, 1, 1, 1, 2]) if self.on('typebound') else rng.randint(0, 1)
+        if self.f.get('no_typedefs'):
+            ntypes = 0
         for _ in range(ntypes):
             tn = self.fresh('ty_')
             td = {'name': tn.lower(), 'bindings': [], 'generics': [], 'finals': [], 'tags': set()}
